@@ -375,6 +375,14 @@ func namedOf(t types.Type) *types.Named {
 
 func typeName(t types.Type) string {
 	if n := namedOf(t); n != nil {
+		if old, ok := canonTypes[n.Obj()]; ok {
+			return old
+		}
+		if o := n.Origin(); o != nil {
+			if old, ok := canonTypes[o.Obj()]; ok {
+				return old
+			}
+		}
 		return n.Obj().Name()
 	}
 	return t.String()
